@@ -197,16 +197,16 @@ pub fn all() -> Vec<CheckDef> {
             id: "C06",
             families: vec![Family { name: "structures", strategy: seq::c06_strategy, cases: |t| t.pick(12_000, 24_000) }],
             exec: seq::exec_c06,
-            rule: "chains, binary trees and combs of n nodes (log-uniform up to 20 000 quick / 1 000 000 thorough), links stamped within a band of <=3 epochs or unstamped, head dropped when the band is 3..40 epochs old, flush delayed by 0..20 foreign epoch advances, epoch alignment 0..47, optional externally held node; oracle: all unreachable nodes destructed within 40 + 16*ceil(n/1024) epoch advances after the flush, held sub-structure intact. Non-trivial = n >= 64; distinct = distinct hash of the case",
+            rule: "chains, binary trees, combs (spine first and leaf first) and spines with twigs of n nodes (log-uniform up to 20 000 quick / 1 000 000 thorough), links stamped within a band of <=3 epochs or unstamped, head dropped when the band is 3..40 epochs old, flush delayed by 0..20 foreign epoch advances, epoch alignment 0..47, optional externally held node; oracle: all unreachable nodes destructed within 40 + 16*ceil(n/1024) epoch advances after the flush, held sub-structure intact. Non-trivial = n >= 64; distinct = distinct hash of the case",
             timeout_s: |t| t.pick(120, 600),
             assumptions: vec![ASSUME_HOOKS, "the bound's constants (40, 16 per 1024 nodes) are deliberately loose: with 4-bit stamps up to 12 of every 16 epochs can look 'too recent' for the stamp residues this generator produces, see DESIGN.md 6/C06; the property is the shape of the bound"],
             shards: s16,
         },
         CheckDef {
             id: "C07",
-            families: vec![Family { name: "deep-structures", strategy: seq::c07_strategy, cases: |t| t.pick(400, 800) }],
+            families: vec![Family { name: "deep-structures", strategy: seq::c07_strategy, cases: |t| t.pick(2_400, 4_800) }],
             exec: seq::exec_c07,
-            rule: "chains / trees / combs / chains whose nodes leave their edges to Drop, n log-uniform up to 300 000 (thorough 4 000 000), reclaimed on the main thread or on a spawned thread with 2 MiB / 1 MiB / 512 KiB stack; oracle: the process survives and every node is destructed. Non-trivial = n >= 2048 (the recursion cap is reached at least twice); distinct = distinct hash of the case",
+            rule: "chains / binary trees / combs (spine first and leaf first) / spines with twigs / chains whose nodes leave their edges to Drop, n log-uniform up to 300 000 (thorough 4 000 000), reclaimed on the main thread or on a spawned thread with 2 MiB / 1 MiB / 512 KiB stack; oracle: the process survives and every node is destructed. Non-trivial = n >= 2048 (the recursion cap is reached at least twice); distinct = distinct hash of the case",
             timeout_s: |t| t.pick(300, 900),
             assumptions: vec![ASSUME_HOOKS, "stack sizes down to a quarter of Rust's default (512 KiB) in an optimised build; any bounded recursion needs some stack"],
             shards: |t| t.pick(16, 8),
